@@ -154,12 +154,13 @@ def check_c13(c):
 def check_c12(c):
     generic(
         c, "c12", ["Properties/C12.v"], ["Proofs/RefnameProofs.v"],
-        what_tie="Stack.Add with name checking vs Model/StackSeq.stack_add / Refname.validate_addition",
-        rule=("histories of 3..12 single-table transactions of 1..3 refs over a 14-name alphabet rich in prefix relations and illegal names "
-              "(a, a/b, a/b/c, a/c, ab, a., a/., b, b/a, a/.., a//b, c/, /c, d), creations, updates, deletions, delete-and-create in one transaction; "
-              "after each: accepted <=> the result is conflict-free (extracted conflict_free_b), live names conflict-free. non-trivial = at least one rejection"),
+        what_tie="Stack.Add and multi-table Additions (NewAddition/Add.../Commit) with name checking vs Model/StackSeq.stack_add, stack_addition / Refname.validate_addition",
+        rule=("histories of 3..12 transactions over a 14-name alphabet rich in prefix relations and illegal names "
+              "(a, a/b, a/b/c, a/c, ab, a., a/., b, b/a, a/.., a//b, c/, /c, d): single-table Adds of 1..3 refs and (about 30%) multi-table Additions of 2..3 tables with 1..2 refs each; "
+              "creations, updates, deletions, delete-and-create in one transaction or across the tables of one Addition; "
+              "after each: accepted <=> the result is conflict-free (extracted conflict_free_b; for an Addition: table by table, as C12_addition states), rejected => no effect, live names conflict-free. non-trivial = at least one rejection"),
         nontrivial=lambda cmd, args, impl: "rejected" in impl,
-        assumptions=["multi-table Additions are validated table by table against the view committed before the Addition (see known finding S5 / C12_addition_pinned_refuted); the tie covers single-table transactions through Stack.Add"])
+        assumptions=["a multi-table Addition is judged table by table (each table is a transaction on the view left by the Addition's earlier tables), which is what the code does and what C12_addition states; an Addition whose tables conflict only transiently is refused"])
 
 
 def check_c18(c):
